@@ -126,6 +126,11 @@ impl<S: Clone + Send + Sync + 'static, R: Send + 'static> SimNet<S, R> {
         let Some(tx) = self.out.boxes.lock().unwrap().get(&addr).cloned() else {
             return;
         };
+        if self.out.name == "txs" {
+            // client -> node transactions: delivered at once and in order
+            let _ = tx.send(msg.clone());
+            return;
+        }
         for d in self.hub.schedule() {
             let tx = tx.clone();
             let m = msg.clone();
@@ -464,6 +469,18 @@ pub fn run(cfg: &SimConfig) -> anyhow::Result<(Vec<Value>, Value)> {
                                 for _ in 0..30 {
                                     let _ = hostile.tx.send(&Transaction(vec![9u8; 1400]), v.2).await;
                                 }
+                                // legal sizes chosen so that the space left in a slice lands just below the
+                                // "room for one more maximal transaction" mark (first slice: parent encoded,
+                                // later slices: no parent), followed by a maximal transaction
+                                if slot_seen.inner() % 3 == 0 {
+                                    for tail in [466usize, 506, 506] {
+                                        for _ in 0..61 {
+                                            let _ = hostile.tx.send(&Transaction(vec![5u8; 512]), v.2).await;
+                                        }
+                                        let _ = hostile.tx.send(&Transaction(vec![6u8; tail]), v.2).await;
+                                        let _ = hostile.tx.send(&Transaction(vec![8u8; 512]), v.2).await;
+                                    }
+                                }
                             }
                         }
                     }
@@ -504,7 +521,7 @@ pub fn run(cfg: &SimConfig) -> anyhow::Result<(Vec<Value>, Value)> {
                                     // (b) validly signed but malformed blocks, one class per slot
                                     let junkp: alpenglow::crypto::merkle::BlockHash =
                                         alpenglow::crypto::hash(b"unknown-parent").into();
-                                    let class = s % 6;
+                                    let class = s % 7;
                                     let mut slices = Vec::new();
                                     let mut base = mk(3, &par_x);
                                     match class {
@@ -518,7 +535,15 @@ pub fn run(cfg: &SimConfig) -> anyhow::Result<(Vec<Value>, Value)> {
                                             second.parent = None;
                                             slices.push(second);
                                         }
-                                        _ => base.parent = Some((Slot::new(s.saturating_sub(2)), junkp.clone())),
+                                        5 => base.parent = Some((Slot::new(s.saturating_sub(2)), junkp.clone())),
+                                        _ => {
+                                            // valid first-slice parent, then a handover to a parent in a LATER slot
+                                            base.is_last = false;
+                                            let mut second = mk(4, &par_x);
+                                            second.slice_index = serde_json::from_str("1").unwrap();
+                                            second.parent = Some((Slot::new(s + 3), junkp.clone()));
+                                            slices.push(second);
+                                        }
                                     }
                                     slices.insert(0, base);
                                     record(VerifEvent::Harness(json!({"e": "Hostile", "from": i, "s": s,
